@@ -81,10 +81,18 @@ func specC02() *PropSpec {
 var snapSubst = map[string]string{"pointindex.lineIntersects": "pointindex.verifLineIntersectsContract"}
 
 func specC01() *PropSpec {
+	c02 := specC02()
+	var routing []Obligation
+	for _, o := range c02.Obligations {
+		if o.Harness == "VerifC02DescentStep" || o.Harness == "VerifC02ChildrenTile" {
+			o.Desc = "(step 1 of the C01 decomposition: exact routing) " + o.Desc
+			routing = append(routing, o)
+		}
+	}
 	return &PropSpec{
 		ID:       "C01",
 		NeedsGen: true,
-		Obligations: []Obligation{
+		Obligations: append(routing, []Obligation{
 			{Harness: "VerifC01Tri2x2", Pkg: "snap", Mode: "math", Tiers: "both", Covers: []string{"snapped", "has-geometry"}, Subst: snapSubst,
 				Desc: "valid triangle, pixels in a 2x2 window straddling the root centre, all sub-pixel positions: no proper crossing", Bounds: "n=3, 2x2 px window, 2^-10 px lattice, id {0}, all flags"},
 			pipeObl("VerifC01ThinShellHole", "both", "template: thin shell collapsing at tile matrix 0 only, with a triangular hole", "shell 4 + hole 3 vertices in pixels (7,7),(8,7), corner positions jittering on the 1/8 px lattice (valid by construction), ids {0,1}", "snapped", "has-geometry"),
@@ -94,7 +102,7 @@ func specC01() *PropSpec {
 				Desc: "valid triangle, 3x3 window", Bounds: "n=3, 3x3 px window, 2^-10 px lattice, id {0}, all flags"},
 			{Harness: "VerifC01Tri2x2TwoLevels", Pkg: "snap", Mode: "math", Tiers: "thorough", Covers: []string{"snapped", "has-geometry"}, Subst: snapSubst,
 				Desc: "valid triangle, 2x2 window, ids {0,1}", Bounds: "n=3, 2x2 px window, 2^-10 px lattice, ids {0,1}, all flags"},
-		},
+		}...),
 	}
 }
 
@@ -142,10 +150,10 @@ func specC04() *PropSpec {
 }
 
 func specC05() *PropSpec {
-	return &PropSpec{ID: "C05", NeedsGen: true, Assumptions: pipeAssumptions, Outside: append([]string{"the repeated-vertex lookup on real (non-dyadic) grids (DESIGN F4)"}, pipeOutside...),
+	return &PropSpec{ID: "C05", NeedsGen: true, Regression: []string{"findings/C05-F4-webmercator-figure8.json"}, Assumptions: pipeAssumptions, Outside: append([]string{"real (non-dyadic) grids beyond the figure-of-eight obligation O-7 (solver-chosen pixels of WebMercatorQuad id 17 / NetherlandsRDNewQuad id 14)"}, pipeOutside...),
 		Obligations: []Obligation{
 			pipeObl("VerifC05Ring3", "both", "any 3-vertex ring (valid or not): orientation, no repeated vertices, size policy, keep = drop + points/lines (twin execution)", "n=3, 2x2 px window, sub-pixel positions on the 1/8 px lattice, id {0}, all flags", "checked"),
-			pipeObl("VerifC05Ring3Edgy", "both", "any 3-vertex ring on pixel borders/corners/centres, two levels", "n=3, 2x2 px window, sub-pixel positions {0,1/2}, ids {0,1}", "checked"),
+			pipeObl("VerifC05Ring3Edgy", "thorough", "any 3-vertex ring on pixel borders/corners/centres, two levels", "n=3, 2x2 px window, sub-pixel positions {0,1/2}, ids {0,1}", "checked"),
 			pipeObl("VerifC05Ring4Centre", "both", "any 4-vertex ring on pixel centres, two levels", "n=4, 2x2 px window, pixel centres, ids {0,1}", "checked"),
 			pipeObl("VerifC05Ring3Full", "thorough", "any 3-vertex ring, all sub-pixel positions, two levels", "n=3, 2x2 px window, 2^-10 px lattice, ids {0,1}", "checked"),
 			pipeObl("VerifC05Ring4Edgy", "thorough", "any 4-vertex ring on pixel borders/corners/centres", "n=4, 2x2 px window, sub-pixel positions {0,1/2}, id {0}", "checked"),
@@ -156,10 +164,14 @@ func specC05() *PropSpec {
 				o.DeadlineSec = 1200
 				return o
 			}(),
-			{Harness: "VerifC05HitLookupRD", Pkg: "snap", Mode: "bits", Tiers: "experimental", Internal: true, MaxPaths: 12, TimeoutMs: 120000, DeadlineSec: 600,
-				Desc: "O-7: NetherlandsRDNewQuad id 14: the solver searches pixels whose int->float->int round trip is off (exact IEEE-754 semantics); for every pixel found the repeated-vertex lookup of ring splitting must still find the emitted centre", Bounds: "all 2^52 pixel addresses of level 26 as search space; at most 12 witnesses / 10 min"},
-			{Harness: "VerifC05HitLookupWebMercator", Pkg: "snap", Mode: "bits", Tiers: "experimental", Internal: true, MaxPaths: 12, TimeoutMs: 120000, DeadlineSec: 600,
-				Desc: "O-7 on WebMercatorQuad id 17", Bounds: "all pixel addresses of level 29 as search space; at most 12 witnesses / 10 min"},
+			{Harness: "VerifC05RealGridFigure8WebMercatorBoth", Pkg: "snap", Mode: "bits", Tiers: "thorough", MaxPaths: 8, TimeoutMs: 300000, DeadlineSec: 900, Covers: []string{"conversion-error-found"}, Budget: 80000000,
+				Desc: "O-7 on WebMercatorQuad id 17, both classes of round-trip error (both ordinates off / one ordinate off by more than a unit)", Bounds: "search space: every pixel of level 29; up to 8 witnesses, 15 min"},
+			{Harness: "VerifC05RealGridFigure8WebMercator", Pkg: "snap", Mode: "bits", Tiers: "quick", MaxPaths: 4, TimeoutMs: 120000, DeadlineSec: 420, Covers: []string{"conversion-error-found"}, Budget: 80000000,
+				Desc: "O-7: WebMercatorQuad id 17: the solver searches (exact IEEE-754 semantics, all pixel addresses of level 29) pixels whose int->float->int round trip is off; a ring passing that pixel's centre twice must still be split there (no vertex twice in any returned ring)", Bounds: "search space: every pixel of level 29; up to 8 solver-found witnesses, 7 min"},
+			{Harness: "VerifC05RealGridFigure8RD", Pkg: "snap", Mode: "bits", Tiers: "thorough", MaxPaths: 8, TimeoutMs: 300000, DeadlineSec: 900, Covers: []string{"conversion-error-found"}, Budget: 80000000,
+				Desc: "O-7 on NetherlandsRDNewQuad id 14 (both ordinates off by one: rarer, slower to find)", Bounds: "search space: every pixel of level 26; up to 8 witnesses, 15 min"},
+			pipeObl("VerifC05Thin4", "both", "any 4-vertex ring in a thin window", "n=4, window of 2x1 pixels, sub-pixel positions {1/4,3/4}, ids {0,1}", "checked"),
+			pipeObl("VerifC05Thin5", "thorough", "any 5-vertex ring in a thin window", "n=5, window of 2x1 pixels, sub-pixel positions {1/4,3/4}, ids {0,1}", "checked"),
 			pipeObl("VerifC05Ring5Centre", "thorough", "any 5-vertex ring on pixel centres", "n=5, 3x3 px window, pixel centres, ids {0,1}", "checked"),
 			pipeObl("VerifC05Hole", "thorough", "any shell + hole of 3 vertices each", "3+3 vertices, 2x2 px window, sub-pixel positions {0,1/2}, id {0}", "checked"),
 		}}
@@ -168,14 +180,18 @@ func specC05() *PropSpec {
 func specC06() *PropSpec {
 	return &PropSpec{ID: "C06", NeedsGen: true, Assumptions: pipeAssumptions, Outside: append([]string{"asymptotic running time (only: instruction budget not exceeded at these sizes)", "deepest level > 32 (Morton range)"}, pipeOutside...),
 		Obligations: []Obligation{
+			{Harness: "VerifC06MortonRange", Pkg: "pointindex", Mode: "bits", Tiers: "both", SymMaps: true, Covers: []string{"inserted", "level-above-32"},
+				Desc: "O-3: InsertCoord of any in-range pixel address (symbolic 64-bit) for accepted built-in sets at the deepest id, the ids around level 32 and a middle id: never panics (levels above 32: known finding F3)", Bounds: "7 accepted sets x up to 4 ids x all in-range addresses (bit-vector semantics)"},
 			pipeObl("VerifC06Ring3", "both", "any 3-vertex ring: no panic, no budget overrun", "n=3, 2x2 px window, sub-pixel positions on the 1/8 px lattice, id {0}, all flags", "ran"),
-			pipeObl("VerifC06Ring3Edgy", "both", "any 3-vertex ring on pixel borders/corners/centres, two levels", "n=3, 2x2 px window, sub-pixel positions {0,1/2}, ids {0,1}", "ran"),
+			pipeObl("VerifC06Ring3Edgy", "thorough", "any 3-vertex ring on pixel borders/corners/centres, two levels", "n=3, 2x2 px window, sub-pixel positions {0,1/2}, ids {0,1}", "ran"),
 			pipeObl("VerifC06Ring4Centre", "both", "any 4-vertex ring on pixel centres (repeated vertices, spikes, zig-zags), two levels", "n=4, 2x2 px window, pixel centres, ids {0,1}", "ran"),
 			pipeObl("VerifC06Ring3Full", "thorough", "any 3-vertex ring, all sub-pixel positions, two levels", "n=3, 2x2 px window, 2^-10 px lattice, ids {0,1}", "ran"),
 			pipeObl("VerifC06Tiny", "both", "rings of one and two points", "n=1..2, 2x2 px window, all sub-pixel positions", "ran"),
 			pipeObl("VerifC06Ring4Edgy", "thorough", "any 4-vertex ring on pixel borders/corners/centres (repeated vertices, spikes, zig-zags included)", "n=4, 2x2 px window, sub-pixel positions {0,1/2}, id {0}", "ran"),
 			pipeObl("VerifC06ThinShellHole", "both", "template: thin shell collapsing at tile matrix 0 only, with a triangular hole (valid polygon)", "shell 4 + hole 3 vertices in pixels (7,7),(8,7), corner positions jittering on the 1/8 px lattice (valid by construction), ids {0,1},{1,0},{1}, all flags", "ran"),
 			pipeObl("VerifC06BowtieHole", "both", "template: fixed square shell with a self-crossing four-vertex hole", "hole vertices pinned to pixels (5,5),(10,5),(5,10),(10,10), sub-pixel positions {1/4,3/4}, ids {0,1}", "ran"),
+			pipeObl("VerifC06Thin4", "both", "any 4-vertex ring in a thin window (vertices sharing a coarse pixel but not a fine one)", "n=4, window of 2x1 pixels, sub-pixel positions {1/4,3/4}, ids {0,1}", "ran"),
+			pipeObl("VerifC06Thin5", "thorough", "any 5-vertex ring in a thin window", "n=5, window of 2x1 pixels, sub-pixel positions {1/4,3/4}, ids {0,1}", "ran"),
 			pipeObl("VerifC06Ring5Centre", "thorough", "any 5-vertex ring on pixel centres", "n=5, 3x3 px window, pixel centres, ids {0,1}", "ran"),
 			pipeObl("VerifC06Hole", "thorough", "any shell + hole of 3 vertices each", "3+3 vertices, 2x2 px window, sub-pixel positions {0,1/2}, id {0}", "ran"),
 		}}
@@ -191,7 +207,10 @@ func specC07() *PropSpec {
 	return &PropSpec{ID: "C07", NeedsGen: true, Assumptions: pipeAssumptions,
 		Outside: append([]string{"map iteration orders other than forward/reversed insertion order per range execution; more reversed ranges per path than stated", "goroutine scheduling (SnapPolygon starts no goroutines)"}, pipeOutside...),
 		Obligations: []Obligation{
-			mo, mo2, mo3,
+			mo, func() Obligation {
+				o := pipeObl("VerifC07MapOrderThin5", "thorough", "any 5-vertex ring in a thin window under nondeterministic map order (time-boxed)", "n=5, window of 2x1 pixels, sub-pixel positions {1/4,3/4}, ids {0,1}", "twice")
+				return o
+			}(), pipeObl("VerifC07MapOrder4", "both", "same for any 4-vertex ring on pixel centres with default flags", "n=4, 2x2 px window, pixel centres, ids {0,1}", "twice"), mo2, mo3,
 			{Harness: "VerifMatchInners", Pkg: "snap", Mode: "math", Tiers: "both", Internal: true, Covers: []string{"matched", "realistic-configuration"}, MapOrderBudget: 3,
 				Desc: "hole matching on catalogues of shells (nested, overlapping with equal area, touching, disjoint; 2-3 at a time, every order) and holes (every start vertex): attached exactly once, to a shell containing it, the smallest such; independent of map iteration order", Bounds: "7 shells x 7 holes catalogue, 2..3 shells, 1 hole"},
 			pipeObl("VerifC07RingDirection", "both", "valid triangle given in either direction => identical result", "n=3, 2x2 px window, all sub-pixel positions (2^-10 px), id {0}, all flags", "both-directions"),
@@ -213,9 +232,12 @@ func specC07() *PropSpec {
 func specC08() *PropSpec {
 	return &PropSpec{ID: "C08", NeedsGen: true, Assumptions: pipeAssumptions, Outside: append([]string{"built-in round grids (NetherlandsRDNewQuad): only the integer arithmetic lemma level, not the pipeline"}, pipeOutside...),
 		Obligations: []Obligation{
-			pipeObl("VerifC08Levels", "both", "result for a tile matrix alone == together with another one (twin executions), keys = requested ids", "n=3 (any ring), 2x2 px window, sub-pixel positions {0,1/2}, pairs {0,1},{0,2},{1,2}, default flags", "compared"),
+			pipeObl("VerifC08Levels", "both", "result for a tile matrix alone == together with another one (twin executions), keys = requested ids", "n=3 (any ring), window of 2x1 pixels, sub-pixel positions {0,1/2}, pairs {0,1},{0,2},{1,2}, default flags", "compared"),
+			pipeObl("VerifC08Levels2x2", "thorough", "same in a 2x2-pixel window", "n=3 (any ring), 2x2 px window, sub-pixel positions {0,1/2}, pairs {0,1},{0,2},{1,2}", "compared"),
 			pipeObl("VerifC08LevelsAll", "thorough", "same with all four flag combinations and the pair {1,0}", "n=3 (any ring), 2x2 px window, sub-pixel positions {0,1/2}", "compared"),
 			pipeObl("VerifC08ThinShellHole", "both", "template: thin shell collapsing at tile matrix 0 only, with a triangular hole", "shell 4 + hole 3 vertices in pixels (7,7),(8,7), corner positions jittering on the 1/8 px lattice (valid by construction), pairs {0,1},{1,0},{1,2}", "compared"),
+			pipeObl("VerifC08Thin4Fine", "thorough", "any 4-vertex ring in a thin window, pair {1,2}", "n=4, window of 2x1 pixels, sub-pixel positions {1/4,3/4}, ids {1,2}", "compared"),
+			pipeObl("VerifC08Thin4", "both", "any 4-vertex ring in a thin window, pair {0,1}", "n=4, window of 2x1 pixels, sub-pixel positions {1/4,3/4}, ids {0,1}", "compared"),
 			pipeObl("VerifC08LevelsEdgy4", "thorough", "same for any 4-vertex ring on pixel centres", "n=4, 2x2 px window, pixel centres", "compared"),
 			func() Obligation {
 				o := pipeObl("VerifC08LevelsEighth", "thorough", "same for any 3-vertex ring on the 1/8 px lattice (time-boxed)", "n=3, 2x2 px window, 1/8 px lattice; time box 20 min", "compared")
